@@ -176,6 +176,7 @@ class ClosAdapter(Adapter):
             w['fam'] = l['fam']
             return {}
         if act == 'SetSigma':
+            self.warm(C)        # evaluated with its present contact distance before that changes
             sg = self.c.dist(l['sigma2'])
             # the contact distance as a float, a numpy scalar or (when integral) an int
             style = l['sigma2'] % 3
